@@ -20,6 +20,72 @@ CHECKS = {
         "technique": "Lean 4 proof (mutual structural induction over layouts) + regenerated tables + model/implementation correspondence",
         "design_ref": "DESIGN.md §8 C01",
     },
+    "C02": {
+        "text": "C02.c02_strict / c02_slices: for EVERY layout, command code, flag and EVERY input that strict decoding accepts, the concatenation of the "
+                "re-encoded events equals the input and each event is the input slice at its offset (declared width; structural events re-encode to nothing). "
+                "Proved from a byte-accounting invariant of the whole walker (Trace.lean: runWalker_acct, mutual induction over layouts + message framing) and the "
+                "two-way codec lemma. The warn-mode clause (only value warnings) is monitored with Binary.unmarshal on the real code and tied by correspondence.",
+        "technique": "Lean 4 proof (accounting invariant by mutual structural induction, for all inputs) + differential run incl. Binary.unmarshal",
+        "design_ref": "DESIGN.md §8 C02",
+    },
+    "C04": {
+        "text": "Per field: c04_prim_reject / c04_prim_accept (a primitive inside regions with room raises the value error naming path/type/integer with no event "
+                "exactly when the integer is outside the declared set, otherwise emits one event) and C16.c16_valid_iff (validity = membership in the declared set for "
+                "every integer); decode_ok covers the all-valid direction for whole values. 'First offending field in wire order with the earlier events emitted' over whole "
+                "messages is enforced by the monitor: every constrained leaf of generated messages of every type/command code is replaced by out-of-range values computed "
+                "from the PINNED declarations, and the error path/type/value and the exact event prefix are checked on the real code; model tied by correspondence.",
+        "technique": "Lean 4 proofs (per-field rule, declared-set characterisation, decode_ok) + fault enumeration monitor against pinned declarations",
+        "design_ref": "DESIGN.md §8 C04",
+    },
+    "C05": {
+        "text": "Theorems for every layout and EVERY input in strict mode: superfluous reports exactly the unconsumed suffix and it is non-empty (c05_superfluous_exact), "
+                "an accepted input is consumed entirely by emitted fields (c05_done_exact), depletion is only reported with the input exhausted (take_depleted), the "
+                "carried command code is the last commandCode event (c05_cc); for conforming values any appended suffix is left untouched (c05_surplus_walker, from "
+                "decode_ok). The truncation clause (events of every complete field, then depleted) is monitored at every cut point against the whole-input decode and tied "
+                "by correspondence; the empty input is included (defect fixed: 48b77c1).",
+        "technique": "Lean 4 proofs (accounting invariant + pump case analysis) + truncation/suffix enumeration",
+        "design_ref": "DESIGN.md §8 C05",
+    },
+    "C06": {
+        "text": "The model is a total function (structural recursion, fuel-bounded loops): every run ends in one constructor of Outcome (c06_pump_total) and never pulls "
+                "more than the input (c06_pulls_le). Every Python operation that can raise an internal error is an explicit crash outcome of the model; that none is "
+                "reachable is MONITORED on the real code over arbitrary/mutated/wrong-type bytes for all types, command codes and flags, with the model corresponding on "
+                "every input. One known finding (response flag assert) is reported as KNOWN-FINDING; the encrypted() asserts were repaired (7c6a5a6).",
+        "technique": "Lean 4 (totality by construction, pull bound) + differential fuzzing with explicit crash outcomes in the model",
+        "design_ref": "DESIGN.md §8 C06",
+    },
+    "C07": {
+        "text": "c07_prim: per field both modes agree (same value/event/state when valid; strict raises without the event, warn emits the event then the warning carrying the "
+                "same error); c07_pump_events_mode_free: the pump treats both modes alike. The whole-run simulation up to the first problem is monitored: both modes of the "
+                "real code on the same well-formed, fault-enumerated and arbitrary inputs, relation checked exactly as stated (events, first warning == strict error incl. "
+                "details, accept <=> no warning); the model corresponds in both modes.",
+        "technique": "Lean 4 proofs (per-field simulation) + two-mode differential monitor",
+        "design_ref": "DESIGN.md §8 C07",
+    },
+    "C08": {
+        "text": "Recovery steps are theorems: c08_skip_exceeded (skip exactly to the end the violated size field declares, enclosing regions charged the consumed bytes, nested "
+                "regions end) and c08_pad_subceeded (pad exactly to the declared end, charged to enclosing regions). Whole-run clauses (no escape except the two allowed value "
+                "errors; tiling of the input by fields, skipped tails and surplus; value-only runs) are monitored on the real code over fault-enumerated and arbitrary inputs "
+                "and tied to the model by warn-mode correspondence. Seven genuine defects were repaired (known_findings.jsonl); one remains a KNOWN-FINDING.",
+        "technique": "Lean 4 proofs of the recovery steps + tiling monitor + warn-mode correspondence",
+        "design_ref": "DESIGN.md §8 C08",
+    },
+    "C10": {
+        "text": "c10_lookahead: for EVERY layout and EVERY input (stronger than stated), whenever strict decoding shows an event the bytes pulled are at most one more than the "
+                "bytes of the fields shown so far (from the Stamped part of the accounting invariant); c10_pulls_bounded; source independence holds by construction of the "
+                "model (c10_source). Prefix stability / complete fields before depleted are monitored at every cut point; six kinds of byte source are compared on the real code; "
+                "pull counts are observed with a counting iterator.",
+        "technique": "Lean 4 proof (stamped-trace invariant) + prefix enumeration + source-kind differential run",
+        "design_ref": "DESIGN.md §8 C10",
+    },
+    "C13": {
+        "text": "C13.c13: for every layout and EVERY input on which strict decoding raises a constraint error, input = bytes of the shown events ++ bytes consumed without an event "
+                "++ remaining bytes, and remaining = exactly the walker's unconsumed suffix (also when it is empty). From the accounting invariant + pump definition. The stale "
+                "look-ahead defect was repaired (be5e617). The monitor re-derives the consumed offending bytes from the error's own details for every rejection of the fault "
+                "enumeration (incl. the final field).",
+        "technique": "Lean 4 proof (accounting invariant for all inputs) + fault enumeration monitor",
+        "design_ref": "DESIGN.md §8 C13",
+    },
     "C16": {
         "text": "Theorems: the byte form is the big-endian two's-complement encoding of the declared width and round-trips in both directions for every "
                 "width/signedness/integer (C16.c16_roundtrip, c16_roundtrip_bytes, c16_width); Python's delegation of to_bytes to looked-up enum instances "
